@@ -74,8 +74,37 @@ def run(ctx):
         strings += [render("4", a) for a in enum.all_base("4")]
     else:
         strings += [render("4", a) for i, a in enumerate(enum.all_base("4")) if i % 23 == ctx.seed % 23]
-    for i in range(0, len(strings), 100000):
-        scoring.check_scores(ctx, "4", strings[i:i + 100000], "v4", slots=("base",))
+    for i in range(0, len(strings), 200000):
+        scoring.check_scores(ctx, "4", strings[i:i + 200000], "v4", slots=("base",))
+    if ctx.tier == "thorough" and ctx.scale == 1:
+        n = 0
+        for chunk in quotient_chunks(rng):
+            scoring.check_scores(ctx, "4", chunk, "v4-quotient", slots=("base",))
+            n += len(chunk)
+        ctx.extra["exhaustive_part"] = "the whole quotient: all %d effective assignments, one (random) spelling each" % n
+        ctx.exhaustive = True
+
+
+def quotient_chunks(rng, size=300000):
+    """all 15,116,544 effective assignments (AV,PR,UI,AC,AT,VC,VI,VA,SC,SI,SA,CR,IR,AR,E)"""
+    buf = []
+    keys = list(EFF_DOM)
+    for combo in itertools.product(*[EFF_DOM[m] for m in keys]):
+        e = dict(zip(keys, combo))
+        # cheap deterministic-ish spelling: Safety needs the Modified metric; otherwise base spelling, with an
+        # occasional Modified override
+        f = []
+        for m, v in e.items():
+            if m in ("SI", "SA") and v == "S":
+                f.append("%s:N/M%s:S" % (m, m))
+            else:
+                f.append("%s:%s" % (m, v))
+        buf.append("CVSS:4.0/" + "/".join(f))
+        if len(buf) >= size:
+            yield buf
+            buf = []
+    if buf:
+        yield buf
 
 
 replay = scoring.replay_scores
